@@ -222,6 +222,75 @@ func propList(c harness.Case) harness.Result {
 	want := canonRoots(roots, refs)
 	if got != want {
 		res.Err = fmt.Errorf("the list item's contents differ from the blocks of D (marker %q, N=%d)\n D: %q\n L(D): %q\n blocks of D:\n%s\n contents of the item:\n%s", marker, n, d, l, indent(want), indent(got))
+		return res
+	}
+	// The blocks are in the item as they are in D, so the list is loose exactly
+	// when the item "directly contains two block-level elements with a blank
+	// line between them": when two consecutive root blocks of D have a blank
+	// line between them. A blank line inside a block (an empty quote line, a
+	// blank line between the items of a nested list) is not between two blocks
+	// of the item. (Documents with a reference definition at the top level are
+	// left out: whether a definition counts as a block here is not fixed.)
+	hasDef := false
+	for _, r := range roots {
+		if r.Kind() == cm.LinkReferenceDefinitionKind {
+			hasDef = true
+		}
+	}
+	if !hasDef && len(roots) > 0 {
+		blankBetween, ambiguous := false, false
+		for i := 1; i < len(roots); i++ {
+			// (a root block's range may take in the blank lines that follow
+			// it - a list's does - so the blank lines are looked for from the
+			// end of the block's last non-blank line)
+			end := roots[i-1].EndOffset
+			for end > roots[i-1].StartOffset {
+				ls := end - 1 // start of the last line of d[:end]
+				if ls >= 0 && d[ls] == '\n' {
+					ls--
+				}
+				if ls >= 0 && d[ls] == '\r' {
+					ls--
+				}
+				for ls >= 0 && d[ls] != '\n' && d[ls] != '\r' {
+					ls--
+				}
+				ls++
+				if !blankLine(d[ls:end]) {
+					break
+				}
+				end = ls
+			}
+			if end < roots[i-1].EndOffset {
+				// blank lines at the end of the block's range. If the innermost last
+				// block is an HTML block that was still open (kinds 1-5 run on to the
+				// end of their container), they are its content, and whether a blank
+				// line that ends a block's content stands between two blocks is not
+				// fixed by the spec's wording
+				b := &roots[i-1].Block
+				for b.ChildCount() > 0 {
+					last := b.Child(b.ChildCount() - 1).Block()
+					if last == nil {
+						break
+					}
+					b = last
+				}
+				if b.Kind() == cm.HTMLBlockKind || b.Kind() == cm.FencedCodeBlockKind {
+					// (the same for a fenced code block that was never closed: the
+					// blank lines are code)
+					ambiguous = true
+				}
+			}
+			if bytes.ContainsAny(d[end:roots[i].StartOffset], "\r\n") {
+				blankBetween = true
+			}
+		}
+		if ambiguous {
+			res.Labels = append(res.Labels, "tightness_not_checked:open_html_or_code_block_before_blank_line")
+		} else if lroots[0].IsTightList() == blankBetween {
+			res.Err = fmt.Errorf("the one-item list is tight=%v, but the blocks of D have a blank line between them: %v (marker %q, N=%d)\n D: %q\n L(D): %q", lroots[0].IsTightList(), blankBetween, marker, n, d, l)
+		}
+		res.Labels = append(res.Labels, fmt.Sprintf("loose_expected=%v", blankBetween))
 	}
 	return res
 }
